@@ -42,6 +42,9 @@ type Config struct {
 	ErrorURL                                             string
 	NoIDPConfigMetadata                                  bool
 	StoreLookup                                          string // Store.Lookup mode
+	// Interceptor: an integrator middleware passed with WithHttpInterceptors: "" none | sets-issuer (puts its own issuer into the
+	// context) | rewrites-host (replaces r.Host, like a proxy-headers middleware) | pass-through | both (rewrites-host, then sets-issuer)
+	Interceptor string
 }
 
 type EP struct{ Path, URL string }
@@ -186,6 +189,34 @@ func NewWithStore(cfg Config, st *Store) (*World, error) {
 	}
 	if cfg.TimeFormat != "" {
 		opts = append(opts, provider.WithCustomTimeFormat(cfg.TimeFormat))
+	}
+	setsIssuer := func(next http.Handler) http.Handler {
+		return http.HandlerFunc(func(rw http.ResponseWriter, r *http.Request) {
+			next.ServeHTTP(rw, r.WithContext(provider.ContextWithIssuer(r.Context(), "https://idp.internal.example/from-interceptor")))
+		})
+	}
+	rewritesHost := func(next http.Handler) http.Handler {
+		return http.HandlerFunc(func(rw http.ResponseWriter, r *http.Request) {
+			r2 := r.Clone(r.Context())
+			r2.Host = "rewritten.example"
+			next.ServeHTTP(rw, r2)
+		})
+	}
+	passThrough := func(next http.Handler) http.Handler {
+		return http.HandlerFunc(func(rw http.ResponseWriter, r *http.Request) { next.ServeHTTP(rw, r) })
+	}
+	switch cfg.Interceptor {
+	case "":
+	case "sets-issuer":
+		opts = append(opts, provider.WithHttpInterceptors(setsIssuer))
+	case "rewrites-host":
+		opts = append(opts, provider.WithHttpInterceptors(rewritesHost))
+	case "pass-through":
+		opts = append(opts, provider.WithHttpInterceptors(passThrough, passThrough))
+	case "both":
+		opts = append(opts, provider.WithHttpInterceptors(rewritesHost, setsIssuer))
+	default:
+		return nil, fmt.Errorf("world: unknown interceptor %q", cfg.Interceptor)
 	}
 	p, err := provider.NewProvider(st, issuer, pc, opts...)
 	if err != nil {
